@@ -22,6 +22,16 @@ RULE = ("pipelines phase -> haplotag -> unphase -> haplotagphase through the rea
         "The pre-phased and `unrecognised` streams also write `|` on calls VcfReader does not regard as phased: homozygous "
         "a|a:PS, a|b without PS key or with PS '.', records without ALT or at a duplicate position (inserted into all "
         "files), multi-ALT records under --no-mav, a second sample without any read. "
+        "Every stream also draws freely: 1-14 records (all-homozygous and 1-3-record chromosomes included), sample and "
+        "chromosome names from pools that sort against column order and share prefixes, read-group layout (ID = sample, "
+        "other IDs, two groups per sample, shuffled header, no groups / a foreign group with --ignore-read-groups), paired "
+        "reads, BX tags, low-MAPQ and duplicate-flagged reads, read ends exactly on a variant, variants on the first/last base, "
+        "an empty contig, a chromosome or a sample without reads, an untagged BAM, PS ids 0 / 1 / 2^31-1, extra ID/FILTER/INFO/"
+        "FORMAT fields, single ./. or 0/. calls, read names shared by two samples, output to stdout, bgzipped+indexed input, "
+        "--chromosome, and haplotag options (--regions, --no-reference, --ignore-linked-read, --tag-supplementary, "
+        "--output-threads, --skip-missing-contigs). Streams `rawtags` (HP/PS written by the harness: exact vote fractions "
+        "incl. 0.70 and ties, HP 0/3, PS 0/absent; L2 only), `twice` (haplotagphase on its own output), `mav` (genotypes "
+        "over two ALT alleles). "
         "History stream: the reads first get HP/PS tags from an earlier haplotag run against another phasing of the same "
         "haplotypes (opposite orientation, other PS ids, all samples), then haplotag with the new VCF for all samples or "
         "with --sample for the first sample only; samples not selected must come out unphased, selected ones as the new VCF says. "
@@ -1289,6 +1299,7 @@ def report(ctx, meta, failing):
         io_, feat_ = sp.get("io") or {}, sp.get("feat") or {}
         return not (sp.get("nomav") or sp.get("mavrec") or sp.get("rawtags") or sp["bmode"] == "untagged"
                     or "--no-reference" in (io_.get("haplotag") or [])      # other allele detection at tagging time
+                    or (feat_.get("dup") and feat_.get("pairs"))    # haplotag reads duplicate-flagged mates, haplotagphase not
                     or (feat_.get("bx") and "--ignore-linked-read" not in (io_.get("haplotag") or [])))
     tags_bad = [i for i in failing["L2tags"] if tags_replayable(meta[i][0])]
     # shared read names: a tag that is not the sample's own decision is the same defect as SIG_COLLIDE; it is a violation
